@@ -116,3 +116,71 @@ Theorem C03_plans_are_valid : forall G T Cur A plan,
   (forall z, In z A <-> AncOf G Cur z) -> upgrade_plan G T Cur = POk plan -> valid_steps G A (up_steps plan).
 Proof. intros. eapply upgrade_plan_valid; eauto. Qed.
 Print Assumptions C03_plans_are_valid.
+
+(* ---------- a whole SEQUENCE of commands from the empty database ----------
+   Every command is planned by the planner models from the rows the previous command left (a planner refusal runs
+   no step); the resulting trace satisfies C03_holds: after EVERY step of EVERY command the rows are the heads of the
+   applied set, every statement matches one row, no error.  Induction over the command list with InvR as the loop
+   invariant, so every reachable state is covered by this one theorem. *)
+From AV Require Import Proofs.C03CommandsProof.
+Theorem C03_command_sequence : forall G ord cmds,
+  wf_refs G -> ~ cyclic (all_down G) -> ndeps_ok G -> Spec.C03.ndeps_okb G = true ->
+  (forall l, Permutation (ord l) l) -> (forall c, In c cmds -> pcmd_ok G c) ->
+  C03_holds (G, [], false, plan_cmds G ord cmds []) (run_cmds G ord (map snd (plan_cmds G ord cmds [])) []).
+Proof. intros. apply command_sequence; auto. Qed.
+Print Assumptions C03_command_sequence.
+
+Example C03_command_sequence_nonvacuous :
+  ndeps_ok G4 /\ (forall c, In c [PUp [3]; PDown (Some 1) None; PUp [3]; PDown None None]%N -> pcmd_ok G4 c) /\
+  pre_C03 (G4, [], false, plan_cmds G4 (fun l => l) [PUp [3]; PDown (Some 1) None; PUp [3]; PDown None None]%N []) = true /\
+  map (fun c => length (snd c)) (plan_cmds G4 (fun l => l) [PUp [3]; PDown (Some 1) None; PUp [3]; PDown None None]%N []) = [4; 1; 1; 4].
+Proof. split; [apply ndeps_okb_spec; vm_compute; reflexivity|]. split.
+  - intros c Hc. cbn in Hc. destruct Hc as [<-|[<-|[<-|[<-|[]]]]]; cbn [pcmd_ok]; auto;
+      intros x [<-|[]]; vm_compute; auto 10.
+  - split; vm_compute; reflexivity. Qed.
+
+(* ---------- offline (--sql, as_sql) mode of the HeadMaintainer ----------
+   _delete_version/_update_version skip the rowcount check when as_sql; update_to_step_g carries the flag. *)
+Theorem C03_any_decider_sound : forall i o, check_C03_any i o = true -> C03_any_holds i o.
+Proof. exact any_decider_sound3. Qed.
+Print Assumptions C03_any_decider_sound.
+
+(* whatever the online step does successfully the offline step does identically: same new state, same statement list
+   (this is what C12/C18 rely on), for every step and every state *)
+Theorem C03_as_sql_same_statements : forall G ord as_sql st s r,
+  update_to_step G ord st s = Ok r -> update_to_step_g as_sql G ord st s = Ok r.
+Proof. exact as_sql_same_step. Qed.
+Print Assumptions C03_as_sql_same_statements.
+
+Theorem C03_as_sql_same_trace : forall G ord as_sql steps s os s',
+  run_steps G ord steps s = (os, Some s') -> run_steps_g as_sql G ord steps s = (os, Some s').
+Proof. exact as_sql_same_trace. Qed.
+Print Assumptions C03_as_sql_same_trace.
+
+(* so the invariant holds verbatim offline: any valid step sequence, same observations as online *)
+Theorem C03_offline_invariant : forall G ord as_sql steps A s,
+  wf_refs G -> ~ cyclic (all_down G) -> Spec.C03.ndeps_okb G = true -> (forall l, Permutation (ord l) l) ->
+  Inv G A s -> valid_steps G A steps ->
+  exists os s', run_steps_g as_sql G ord steps s = (os, Some s') /\ run_steps G ord steps s = (os, Some s') /\
+                steps_hold G A steps os /\ Inv G (ghost_steps steps A) s'.
+Proof. intros. apply offline_invariant; auto. apply gwf_of; auto. Qed.
+Print Assumptions C03_offline_invariant.
+
+(* the emitted script: executed on a table holding starting_rev it matches one row per statement and leaves
+   rows = heads of the applied set after every step (Offline_holds = C03_holds of the replayed script) *)
+Theorem C03_offline_script : forall G rws0 cmds A0,
+  wf_refs G -> ~ cyclic (all_down G) -> Spec.C03.ndeps_okb G = true ->
+  closure G rws0 = Some A0 -> (forall c, In c cmds -> valid_cmds G A0 [c]) ->
+  Offline_holds (G, rws0, true, cmds) (model_offline (G, rws0, true, cmds)).
+Proof. exact main_offline. Qed.
+Print Assumptions C03_offline_script.
+
+(* version_table_pk=False: the model has no uniqueness constraint at all (INSERT appends unconditionally), so every theorem
+   above is about the table without primary key; duplicates can only come from outside: from duplicate-free rows every
+   valid trace stays duplicate-free (rows_ok) — and with duplicates present online raises CommandError where offline goes on *)
+Example C03_offline_nonvacuous :
+  update_to_step G4 (fun l => l) (RevStep 0 false) (mkHM [0] [0;0])%N = Err ECommand /\
+  update_to_step_g true G4 (fun l => l) (RevStep 0 false) (mkHM [0] [0;0])%N = Ok (mkHM [] [], [Del 0%N 2]) /\
+  model_offline (G4, [1;2]%N, true, [(EndNone, [RevStep 3 true])]%N) = [[SOk [3]%N [Del 2%N 0; Upd 1%N 3%N 0]]] /\
+  check_offline (G4, [1;2]%N, true, [(EndNone, [RevStep 3 true])]%N) [[SOk [3]%N [Del 2%N 0; Upd 1%N 3%N 0]]] = true.
+Proof. repeat split; vm_compute; reflexivity. Qed.
